@@ -70,6 +70,9 @@ class TemperatureUnitType(UnitType):
             if len(self.baseunits1.units)!=1 or len(self.baseunits2.units)!=1:
                 raise Exception("Only simple units can be converted between each other:",
                                 self.baseunits1.units, self.baseunits2.units)
+            if self.baseunits1.dimensions!=self.baseunits2.dimensions:
+                raise Exception("Unsupported conversion between units:",
+                                self.baseunits1.expression, self.baseunits2.expression)
             self.conversion = (f"_convert_{self.baseunits1.units[0]}_{self.baseunits2.units[0]}",)
         else:
             return False
